@@ -46,7 +46,7 @@
 static void reb_tree_get_nearest_neighbour_in_cell(struct reb_simulation* const r, int* collisions_N, struct reb_vec6d gb, struct reb_vec6d gbunmod, int ri, double p1_r,  double* nearest_r2, struct reb_collision* collision_nearest, struct reb_treecell* c);
 static void reb_tree_check_for_overlapping_trajectories_in_cell(struct reb_simulation* const r, int* collisions_N, struct reb_vec6d gb, struct reb_vec6d gbunmod, int ri, double p1_r, double p1_r_plus_dtv, struct reb_collision* collision_nearest, struct reb_treecell* c, double maxdrift);
 
-void reb_collision_search(struct reb_simulation* const r){
+int reb_collision_search(struct reb_simulation* const r){
     int N = r->N - r->N_var;
     int Ninner = N;
     int* mercurius_map = NULL;
@@ -98,7 +98,7 @@ void reb_collision_search(struct reb_simulation* const r){
                 // Loop over all particles
                 for (int i=0;i<N;i++){
 #ifndef OPENMP
-                    if (reb_sigint > 1) return;
+                    if (reb_sigint > 1) return 0;
 #endif // OPENMP
                     int ip = i;
                     if (mercurius_map){
@@ -172,7 +172,7 @@ void reb_collision_search(struct reb_simulation* const r){
                 // Loop over all particles
                 for (int i=0;i<N;i++){
 #ifndef OPENMP
-                    if (reb_sigint > 1) return;
+                    if (reb_sigint > 1) return 0;
 #endif // OPENMP
                     int ip = i;
                     if (trace_map){
@@ -264,7 +264,7 @@ void reb_collision_search(struct reb_simulation* const r){
 #pragma omp parallel for schedule(guided)
             for (int i=0;i<N;i++){
 #ifndef OPENMP
-                if (reb_sigint > 1) return;
+                if (reb_sigint > 1) return 0;
 #endif // OPENMP
                 struct reb_particle p1 = particles[i];
                 struct reb_collision collision_nearest;
@@ -323,7 +323,7 @@ void reb_collision_search(struct reb_simulation* const r){
 #pragma omp parallel for schedule(guided)
             for (int i=0;i<N;i++){
 #ifndef OPENMP
-                if (reb_sigint > 1) return;
+                if (reb_sigint > 1) return 0;
 #endif // OPENMP
                 struct reb_particle p1 = particles[i];
                 struct reb_collision collision_nearest;
@@ -485,6 +485,7 @@ void reb_collision_search(struct reb_simulation* const r){
             }
         }
     }
+    return collisions_N;
 }
 
 /**
